@@ -20,6 +20,7 @@ tvars == <<l, bad, learned>>
 Accept(e, c) ==
   CASE e.op = "applies" -> e.val = Applies(c, e.tr, e.args)
     [] e.op = "impl" -> PropImplHeader(c, e)
+    [] e.op = "itemset" -> PropItemSet(c, e)
     [] OTHER -> FALSE
 
 TraceInit == l = 1 /\ bad = <<>> /\ learned = <<>>
